@@ -147,6 +147,12 @@ func runC20(run *Run, replay string) {
 		base := sb.String()
 		texts := append([]string{base}, histories(r, base, hist)...)
 		for ti, text := range texts {
+			switch bi % 5 {
+			case 2:
+				text = "/* header */ " + text // the root body starts behind the comment
+			case 4:
+				text = "  " + text // ... or behind the indentation of the first item
+			}
 			w := newWorld()
 			// the table as generated, rendered before any query has run
 			funcsBefore := sigFuncsS(funcs)
@@ -185,10 +191,16 @@ func runC20(run *Run, replay string) {
 				}
 				res := safeCall("SignatureAtPos", func() (interface{}, error) { return d.SignatureAtPos("main.tf", pos) })
 				run.Res.Evaluations++
-				if res.Panic != "" || res.Err != nil {
+				if res.Panic != "" {
 					continue
 				}
-				sig, _ := res.Val.(*lang.FunctionSignature)
+				// an error (position outside the root body, e.g. inside a leading comment) is "no signature"
+				var sig *lang.FunctionSignature
+				if res.Err == nil {
+					sig, _ = res.Val.(*lang.FunctionSignature)
+				} else {
+					run.Count("positions_answered_with_an_error")
+				}
 				pairs = append(pairs, L(posS(pos), sigObservedS(sig)))
 				q := Query{Name: "SignatureAtPos", Pos: &pos, File: "main.tf"}
 				// ---- direct oracle
